@@ -286,13 +286,18 @@ func handleUpload(ucfg *tconfig.Config, uploadBucket storage.BucketHandle) conte
 		if r.Method == "POST" {
 			ctx := r.Context()
 			var report telemetry.Report
-			if err := json.NewDecoder(r.Body).Decode(&report); err != nil {
+			dec := json.NewDecoder(r.Body)
+			if err := dec.Decode(&report); err != nil {
 				return content.Error(fmt.Errorf("invalid JSON payload: %v", err), http.StatusBadRequest)
 			}
-			// The size limit applies to the whole body, not only to the
-			// report at its front: read the rest so that it is enforced.
-			if _, err := io.Copy(io.Discard, r.Body); err != nil {
-				return content.Error(fmt.Errorf("invalid request body: %v", err), http.StatusBadRequest)
+			// The body must be the report and nothing else (blanks aside).
+			// Reading on to its end also lets the size limit apply to the
+			// whole body, not only to the report at its front.
+			if _, err := dec.Token(); err != io.EOF {
+				if err == nil {
+					err = errors.New("data after the report")
+				}
+				return content.Error(fmt.Errorf("invalid JSON payload: %v", err), http.StatusBadRequest)
 			}
 			if err := validate(&report, ucfg); err != nil {
 				return content.Error(fmt.Errorf("invalid report: %v", err), http.StatusBadRequest)
